@@ -250,7 +250,7 @@ mod proofs {
         kani::cover!(true);
     }
 
-    // @harness id=C02 tier=thorough unwind=14 timeout=2400 fs=4096
+    // @harness id=C02 tier=thorough unwind=14 timeout=4500 fs=4096
     // @desc BGV addition/subtraction of ciphertexts carrying DIFFERENT correction factors: result residues = e1*a +- e2*b and result factor f, where (f, e1, e2) = balance_correction_factors(f1, f2); so result/f decrypts to a/f1 +- b/f2
     // @bounds BGV N=2, q={97}, t=17; sizes (2,2); all canonical residues; factor pairs (1,2), (3,5), (16,7) (concrete per case; all 256 pairs of the balancing function itself: c02_balance_correction_factors); NTT form (BGV default)
     // @funcs Evaluator::translate_inplace (factor-balancing branch), polysmallmod::multiply_scalar_inplace_ps, Evaluator::balance_correction_factors
@@ -317,7 +317,7 @@ mod proofs {
         assert!(c2.size() == L2 / 2 && c2.data()[0] == b[0] && c2.data()[L2 - 1] == b[L2 - 1]);
     }
 
-    // @harness id=C02 tier=thorough unwind=14 timeout=2400 fs=4096
+    // @harness id=C02 tier=thorough unwind=14 timeout=3000 fs=4096
     // @desc BGV multiplication of two size-2 ciphertexts in NTT form: output polynomial k is slot-wise sum_{i+j=k} a_i*b_j (the coefficients of (a0 + a1 s)(b0 + b1 s)), size 3, correction factor = product of the factors mod t, second operand unchanged
     // @bounds BGV N=2, q={97}, t=17; sizes (2,2); all canonical residues; correction factors 3 and 5; output polynomial and slot symbolic
     // @funcs Evaluator::multiply_inplace, Evaluator::bgv_multiply, polysmallmod::dyadic_product_p, polysmallmod::add_inplace_p
@@ -332,7 +332,7 @@ mod proofs {
         std::mem::forget(ev); std::mem::forget(ctx);
     }
 
-    // @harness id=C02 tier=thorough unwind=14 timeout=2400 fs=4096
+    // @harness id=C02 tier=thorough unwind=14 timeout=3000 fs=4096
     // @desc BGV multiplication with operands of DIFFERENT sizes, larger operand first (3,2): all four output polynomials are the full tensor-product sums
     // @bounds BGV N=2, q={97}, t=17; sizes (3,2); all canonical residues
     // @funcs Evaluator::multiply_inplace, Evaluator::bgv_multiply
@@ -443,7 +443,7 @@ mod proofs {
         std::mem::forget(ev); std::mem::forget(ctx); std::mem::forget(first); std::mem::forget(second);
     }
 
-    // @harness id=C03 tier=thorough unwind=14 timeout=2400 fs=4096
+    // @harness id=C03 tier=thorough unwind=14 timeout=3000 fs=4096
     // @desc CKKS rescaling BELOW the first data level: the recorded scale is exactly the IEEE quotient of the input scale by the prime that is dropped at THAT level (not by a prime of another level), the result sits on the next level, and modulus switching (drop) at that level keeps the scale unchanged
     // @bounds CKKS N=2, chain {97,113,193,241}: data levels {97,113,193} > {97,113} > {97}; ciphertext on the SECOND data level {97,113}; scales 2^k, 1 <= k <= 6; size 2; all canonical residues
     // @funcs Evaluator::rescale_to_next_new, Evaluator::mod_switch_to_next_new, Evaluator::mod_switch_scale_to_next_internal, Evaluator::mod_switch_drop_to_next_internal
@@ -574,7 +574,7 @@ mod proofs {
         assert!(src.data()[poly * 4 + k] == a[poly * 4 + k] && *src.parms_id() == pid);
     }
 
-    // @harness id=C05 tier=thorough unwind=14 timeout=1800 fs=4096
+    // @harness id=C05 tier=thorough unwind=14 timeout=3600 fs=4096
     // @desc BFV mod_switch_to_next (value-returning and in-place forms): the result sits exactly on the next level, every remaining residue is round(x / q_last) mod q_0 of the CRT-composed input coefficient, size/form kept, scale 1, correction factor 1; the input is unchanged
     // @bounds BFV N=2, chain {97,113} -> {97}, t=17; size 2 and 3 (two cases); all canonical residues; one coefficient position symbolic
     // @funcs Evaluator::mod_switch_to_next_new, Evaluator::mod_switch_to_next_inplace, Evaluator::mod_switch_scale_to_next_internal, RNSTool::divide_and_round_q_last_inplace, Ciphertext::resize
@@ -662,7 +662,7 @@ mod proofs {
         std::mem::forget(ev); std::mem::forget(ctx); std::mem::forget(cd);
     }
 
-    // @harness id=C05 tier=thorough unwind=14 timeout=1800 fs=4096
+    // @harness id=C05 tier=thorough unwind=14 timeout=3600 fs=4096
     // @desc BGV mod_switch_to_next: lands on the next level, data = the BGV divide-by-last-prime kernel per polynomial, and the correction factor is multiplied by q_last^-1 mod t (bookkeeping that keeps the plaintext unchanged)
     // @bounds BGV N=2, chain {97,113} -> {97}, t=17; size 2; all canonical residues; correction factor 1..16
     // @funcs Evaluator::mod_switch_to_next_new, Evaluator::mod_switch_scale_to_next_internal, RNSTool::mod_t_and_divide_q_last_ntt_inplace, RNSTool::inv_q_last_mod_t
@@ -753,7 +753,7 @@ mod proofs {
         kani::cover!(true, "AFTER: BGV rescale returned");
     }
 
-    // @harness id=C06 tier=thorough unwind=14 timeout=1800 fs=4096
+    // @harness id=C06 tier=thorough unwind=14 timeout=3000 fs=4096
     // @desc the three API forms of addition (in-place, destination-argument with a destination pre-filled with a DIFFERENT-sized ciphertext, value-returning) give field-wise identical results and leave both read-only operands unchanged; the result is valid for the context
     // @bounds BFV N=2, q={97}; sizes (2,3); destination pre-filled with an arbitrary size-3 NTT-flagged ciphertext; all canonical residues
     // @funcs Evaluator::add, Evaluator::add_new, Evaluator::add_inplace, Ciphertext::is_valid_for
@@ -988,7 +988,7 @@ mod proofs {
         ks_case(sk, er, am, false);
     }
 
-    // @harness id=C04 tier=thorough unwind=14 timeout=3000 fs=4096 mem=24
+    // @harness id=C04 tier=thorough unwind=14 timeout=4500 fs=4096 mem=24
     // @desc key switching at a LOWER level of the chain with a fixed key-switching key: for EVERY target polynomial at the last level (ciphertext fixed: it only enters additively), switch_key_inplace_internal changes the phase under s by target*s' plus a noise term bounded by the key error (the special prime -- the LAST key modulus, not the next data prime -- is the one divided out), size/level/representation kept
     // @bounds BFV N=2, chain {97,113,193} (special prime 193), ciphertext (3,50 | 96,7) at the LAST level {97}; all target residues; fixed keys s = 1 - X, s' = X, key error (3,-2), mask (5,7 | 11,13 | 17,19); the all-keys version is the thorough harness c04_key_switch_lemma_lower_level
     // @funcs Evaluator::switch_key_inplace_internal, polysmallmod::{ntt_lazy,intt_lazy,modulo,multiply_operand_inplace,add_inplace}, barrett_reduce_u128
